@@ -44,7 +44,7 @@ def main():
         except Exception:
             ch = [{"object": "guard", "before": None, "after": traceback.format_exc()[-300:]}]
         chk.cov["module_state_guard"] = {"modules": guard.modules, "changes": ch,
-                                         "enforced": os.environ.get("VERIF_PURITY_ENFORCE", "0") == "1"}
+                                         "enforced": os.environ.get("VERIF_PURITY_ENFORCE", "1") == "1"}
         if ch and chk.cov["module_state_guard"]["enforced"] and not chk.violations:
             chk.replay({"kind": "state-dependence",
                         "note": "module-level state of the anchored PyDRex modules changed during the run: results may depend on the call "
